@@ -450,6 +450,7 @@ struct Engine {
     // ---- methods -----------------------------------------------------------
 
     Objects objects;
+    std::vector<std::shared_ptr<void>> keepalive;
     std::vector<MethodEntry> methods;
     std::deque<detail::definition_info> def_store;
     std::deque<void*> next_store;
@@ -616,6 +617,7 @@ struct Engine {
             auto v = make_virtual_shared<Dt, P>();
             md = v.get().get();
             as_t = v.get();
+            keepalive.push_back(v.get()); // the oracle looks at it later
             VSP<St> sv(v);
             result.emplace(VSP<T>(sv));
             break;
